@@ -413,6 +413,9 @@ func c16RunVariant(t testing.TB, seed uint64, blocks int, thor bool, o c16Opts) 
 	defer in.close()
 	w := c16NewWorkload(in, seed, thor)
 	w.variant = o.variant
+	if o.variant == 0 {
+		w.total = blocks
+	}
 	if o.jitter {
 		in.jitter = NewRng(seed ^ 0x5eed)
 	}
@@ -589,6 +592,13 @@ func TestC16(t *testing.T) {
 		}
 		for k, v := range stats {
 			tr.Stats[k] += v
+		}
+		if s == nSeeds-1 {
+			never, neverOK := c16MissingMsgTypes(tr.Stats)
+			tr.Set("msg-types-never-delivered", never)
+			tr.Set("msg-types-never-succeeded", neverOK)
+			tr.Stats["msg-types-never-delivered"] = len(never)
+			tr.Stats["msg-types-never-succeeded"] = len(neverOK)
 		}
 		firstDiff := true
 		for i := range recA {
